@@ -20,3 +20,5 @@ const EdgeMultiplicity bg_zero_uint;
 const bg_real bg_zero_real;
 struct bg_adj *bg_cur_adj;
 bg_ghost_frontier_t bg_ghost_frontier;
+bg_file_t bg_file;
+bg_bool bg_SYSTEM_IS_BIG_ENDIAN;
